@@ -659,9 +659,14 @@ func (d *decoder) parseDataFields(dm *defmsg, knownMsg bool, msgv reflect.Value)
 				for j := dsize; j < pfield.t.BaseType().Size(); j++ {
 					d.tmp[j] = 0x00
 				}
-			} else {
-				for j := 0; j < pfield.t.BaseType().Size(); j++ {
-					d.tmp[j], d.tmp[j+padding] = 0x00, d.tmp[j]
+			} else if pfield.t.Kind() != types.NativeFit {
+				// Native fields are read with the size from the
+				// definition; only right-align the others.
+				for j := dsize - 1; j >= 0; j-- {
+					d.tmp[j+padding] = d.tmp[j]
+				}
+				for j := 0; j < padding; j++ {
+					d.tmp[j] = 0x00
 				}
 			}
 		}
